@@ -27,7 +27,8 @@ InRange(kind, b, off) ==
 
 \* formats that apply: unsigned kinds have no sign; floats only decimal / exponent forms
 FormatOK(kind, f, ctx) ==
-  /\ (kind \in FloatKinds => f \in {"dec"})
+  /\ (kind \in {"float32", "float64"} => f \in {"dec"})
+  /\ (kind \in {"complex64", "complex128"} => f \in {"dec", "hex"})      \* hex stands for "the literal is the imaginary part"
   /\ (f = "ws" => ctx = "slice")
 RangeCases == {[fam |-> "range", kind |-> k, b |-> b, off |-> o, fmt |-> f, ctx |-> c, accept |-> InRange(k, b, o)] :
                  k \in IntKinds \cup UintKinds \cup FloatKinds, b \in Boundaries, o \in Offsets, f \in Formats, c \in {"string", "slice"}}
